@@ -479,6 +479,7 @@ TIE_FILES = {   # tie file -> functions of pyerrors/obs.py it needs regenerated
     "Tie_projected.v": ["corr_projected_single", "corr_projected_lists"],
     "Tie_corrfit.v": ["corr_fit_xs", "corr_fit_ys"],
     "Tie_plateau.v": ["corr_plateau_avg"],
+    "Tie_plottable.v": ["corr_plottable_x", "corr_plottable_y", "corr_plottable_yerr"],
     "Tie_meffroot.v": ["m_eff_root_loop"],
     "Tie_gamma.v": ["_expand_deltas", "_calc_gamma"],      # imports Tie_expand_deltas: list that file first
 }
